@@ -146,6 +146,14 @@ class Filter(object):
                 newkeys.append(skey)
                 oldvals.append(cfg_old.get(skey, None))
                 newvals.append(cfg_cur[skey])
+        # Keys that were removed from the configuration since the last
+        # update must be treated as changed as well (otherwise a removed
+        # box filter would remain active).
+        for skey in list(cfg_old.keys()):
+            if skey not in cfg_cur:
+                newkeys.append(skey)
+                oldvals.append(cfg_old[skey])
+                newvals.append(None)
 
         # 1. Invalid filters
         arr_invalid = self._get_rw_array("invalid")
